@@ -1,3 +1,35 @@
-/-! Model for property C12 (core Lean only; no Mathlib). -/
+import Ptn.C01.Model
+/-! Model for property C12 (core Lean only).  The state-diagram model is the one of C01
+(`Ptn.C01.SD`, `singleTerm`, `baseDiagram`, `bondDims`); the bond dimension of a TTNO edge is the
+number of vertices of that edge (`VertexColl.index_vertices`, `obtain_tensor_shape`). -/
 namespace Ptn.C12
+open Ptn.C01
+
+/-- Bond dimensions (keyed by the child end of the edge) of the TTNO of a single-term Hamiltonian. -/
+def singleBonds (t : RTree) (tm : Term) : List (Nat × Nat) := bondDims (singleTerm t tm)
+
+/-- Bond dimensions of the uncompressed TTNO. -/
+def baseBonds (t : RTree) (terms : List Term) : Option (List (Nat × Nat)) :=
+  (baseDiagram t terms).map bondDims
+
+mutual
+/-- Every edge below `d` carries exactly `n` vertices. -/
+def BondsAll (n : Nat) : SD → Prop
+  | .node _ _ _ kids => BondsAllKids n kids
+def BondsAllKids (n : Nat) : List SD → Prop
+  | [] => True
+  | k :: ks => k.nv = n ∧ BondsAll n k ∧ BondsAllKids n ks
+end
+
+mutual
+/-- The diagram `d` lives on the tree `t` (same identifiers, same branching). -/
+def Over : RTree → SD → Prop
+  | .node i _ ks, .node j _ _ ds => i = j ∧ OverKids ks ds
+def OverKids : List RTree → List SD → Prop
+  | [], [] => True
+  | k :: ks, d :: ds => Over k d ∧ OverKids ks ds
+  | [], _ :: _ => False
+  | _ :: _, [] => False
+end
+
 end Ptn.C12
